@@ -202,3 +202,43 @@ Proof.
   subst align.
   apply crop_cols_equal; try assumption; lia.
 Qed.
+
+(* ---------- the witnesses of the former hazards on the repaired source ---------- *)
+Definition wgr (M v H : Z) (merged : bool) : geom :=
+  mkGeom M v H ((H + M * v - 1) / (M * v)) merged false 1 H H false 1 H true true true true.
+
+Lemma wgr_ok M v H merged :
+  (1 <=? M) && (1 <=? v) && (0 <=? H) && (H <? 4294967296) && (negb merged || (v =? 1) || (v =? 2)) = true ->
+  geom_ok (wgr M v H merged).
+Proof. intros E. unfold geom_ok, wgr. cbn. repeat split; try lia. intros Hm. subst merged. cbn in E. lia. Qed.
+
+(* the histories that were wrong through hazards 1, 2 and 4 are hazard free on the repaired source, so they are
+   instances of skip_read_equals_full_repaired / _no_hazard *)
+Lemma repaired_witnesses_hazard_free :
+  first_hazard (wgr 2 1 30 false) a_init [Skip 3; Skip 1; Read 1] = 0 /\
+  first_hazard (wgr 8 2 60 false) a_init [Read 1; Skip 2; Read 1] = 0 /\
+  first_hazard (wgr 8 2 53 true) a_init [Skip 21; Read 40] = 0 /\
+  first_hazard (wgr 8 2 53 false) a_init [Read 2; Skip 2; Read 60] = 0.
+Proof. vm_compute. repeat split; reflexivity. Qed.
+
+(* hazard 3 (merged h2v2 spare row) remains: the unconditional statement is false for the repaired source too *)
+Lemma refuted_merged_spare_row_repaired :
+  let g := wgr 8 2 53 true in let ops := [Read 1; Skip 20; Read 1] in
+  geom_ok g /\ Forall op_nonneg ops /\ first_hazard g a_init ops = 3 /\ bad_row g ops 21 (22, -1).
+Proof.
+  cbv zeta. repeat match goal with |- _ /\ _ => split end.
+  - apply wgr_ok. reflexivity.
+  - repeat constructor; cbn; lia.
+  - vm_compute. reflexivity.
+  - split; [vm_compute; auto | discriminate].
+Qed.
+
+Theorem skip_read_equals_full_repaired_refuted :
+  ~ (forall g ops, geom_ok g -> gfx1 g = true -> gfx2 g = true -> gfx4 g = true -> Forall op_nonneg ops ->
+     run_result_ok g ops).
+Proof.
+  intros Hfull.
+  destruct refuted_merged_spare_row_repaired as (Hg & Hnn & _ & (Hin & Hne)).
+  destruct (Hfull _ _ Hg eq_refl eq_refl eq_refl Hnn) as (_ & _ & Hall).
+  rewrite Forall_forall in Hall. destruct (Hall _ Hin) as (A & _). cbn [fst snd] in A. apply Hne. exact A.
+Qed.
